@@ -195,6 +195,15 @@ func execStatic(args []string, lines [][]string) (outs []string) {
 		switch {
 		case spy:
 			opts.FileSystem = spyFS{fs: http.Dir(tree.pub), names: &opened}
+			// a directory called like the documented default ("public") sits in the working directory and holds a file
+			// the configured file system does not have: with a FileSystem given, nothing on disk is Static's business
+			if cwd, err := os.Getwd(); err == nil {
+				pubDefault := filepath.Join(tree.base, "public")
+				if os.MkdirAll(pubDefault, 0o755) == nil && os.WriteFile(filepath.Join(pubDefault, "only-on-disk.txt"), []byte("ON DISK ONLY"), 0o644) == nil &&
+					os.Chdir(tree.base) == nil {
+					defer func() { _ = os.Chdir(cwd) }()
+				}
+			}
 			if arg(3) == "3" {
 				// FileSystem AND Directory: the file system given is what is served, as it is (Directory only names the
 				// directory of the default file system)
@@ -651,6 +660,14 @@ func genStaticSession(r *rand.Rand, emit Emit, pfx, index string, nreq int, smal
 		"/static/static/deep.txt", "/public/x", "/pub", "/pub/", "/pubx/leak.txt", "/st", "/sta", "static", "static/in.txt", "a.txt", "sub", "sub/", ".", "..", "../secret.txt",
 		"/" + strings.Repeat("a/../", 300) + "a.txt", "/" + strings.Repeat("../", 300) + "secret.txt",
 		"/" + strings.Repeat("sub/../", 200) + "sub", "/" + strings.Repeat("x", 5000),
+	}
+	// a file that exists only in a directory named like the documented default, next to the served tree
+	battery = append(battery, "/only-on-disk.txt", "/public/only-on-disk.txt")
+	if np != "" {
+		// paths OUTSIDE the prefix that only lexical cleaning would bring under it
+		for _, f := range []string{"/a.txt", "/index.html", "/sub/", "/"} {
+			battery = append(battery, "/zz/.."+np+f, "/."+np+f, "/"+np+f, np+"x/.."+np+f)
+		}
 	}
 	for _, b := range battery {
 		m := staticMethods[r.Intn(len(staticMethods))]
